@@ -228,13 +228,26 @@ func applyUnsafe(s *schemagen.Schema, e edit) string {
 		}
 	case "bare-type-to-union":
 		var cands []*schemagen.Comb
+		bareF, bareR := bareUses(s)
 		for _, c := range s.Combs {
-			if !c.IsFunc && len(tn[c.ResultType]) == 1 && len(c.Params) == 0 && refs[c.Name] { // referenced through its constructor name = bare
+			// used bare: through its constructor name, or as %Type
+			if !c.IsFunc && len(tn[c.ResultType]) == 1 && len(c.Params) == 0 && (bareF[c.Name] || bareR[c.Name] || bareF[c.ResultType] || bareR[c.ResultType]) {
 				cands = append(cands, c)
 			}
 		}
 		if len(cands) == 0 {
 			return ""
+		}
+		if e.Sub%2 == 0 { // prefer a type whose bare uses all sit inside function results ("wherever the edit occurs")
+			var only []*schemagen.Comb
+			for _, c := range cands {
+				if !bareF[c.Name] && !bareF[c.ResultType] {
+					only = append(only, c)
+				}
+			}
+			if len(only) > 0 {
+				cands = only
+			}
 		}
 		c := cands[e.At%len(cands)]
 		nc := &schemagen.Comb{Name: c.Name + "Second", ResultType: c.ResultType, Fields: []schemagen.Field{{Name: "v", Type: intType()}}}
